@@ -55,8 +55,27 @@ def strata(pid, rec):
     return f(rec) if f else [rec["scn"].get("op", "?")]
 
 
+# thorough tier: the case counts written below are multiplied per property so that each thorough
+# run explores for minutes, not seconds (sizes such as nmax are left alone: values < 50)
+THOROUGH_SCALE = {"default": 20, "C15": 1, "C17": 3, "C19": 2, "C03": 6, "C04": 6, "C14": 6, "C10": 8, "C11": 10, "C18": 10, "C13": 15, "C05": 15}
+_CUR = {"pid": None}
+
+
+def set_current(pid):
+    _CUR["pid"] = pid
+
+
 def count(tier, quick, thorough):
-    return thorough if tier == "thorough" else quick
+    if tier != "thorough":
+        return quick
+    if thorough < 50:
+        return thorough
+    k = THOROUGH_SCALE.get(_CUR["pid"], THOROUGH_SCALE["default"])
+    try:
+        k = float(os.environ.get("VERIF_THOROUGH_SCALE", k))
+    except ValueError:
+        pass
+    return max(1, int(thorough * k))
 
 
 def graph_nontrivial(s):
@@ -351,7 +370,7 @@ NONTRIVIAL_RULE["C03"] = "non-trivial: n>=3 with a multi-edge or cycle, winnable
 PROPS["C03"] = {"generate": c03_generate, "strata": algo_strata,
                 "nontrivial": lambda rec: algo_nontrivial(rec) and isinstance(rec["lean"], dict) and rec["lean"].get("rank") not in (-1, "ERR"),
                 "rule": "rank()/r() in both modes on generated connected multigraphs, divisors from all four degree bands, worker pool real (fails to pickle -> fallback) / stubbed to fail at once / replaced by a thread pool (pool path exercised)",
-                "theorems": ["rank_unique", "rank_linEq_invariant", "good_degrees_downward_closed", "rank_plain_exact", "rank_optimized_exact_low", "rank_optimized_band_partial"]}
+                "theorems": ["rank_unique", "rank_linEq_invariant", "good_degrees_downward_closed", "rank_plain_exact", "rank_optimized_exact_low", "rank_optimized_band_partial", "riemann_roch", "rank_exists", "rank_above_canonical_degree", "rank_optimized_exact", "rank_modes_agree", "computed_riemann_roch"]}
 
 
 # ---- C04
@@ -367,7 +386,7 @@ def c04_generate(rng, tier):
 NONTRIVIAL_RULE["C04"] = "non-trivial: n>=3 with a multi-edge or cycle"
 PROPS["C04"] = {"generate": c04_generate, "strata": algo_strata, "nontrivial": algo_nontrivial,
                 "rule": "gonality() with/without strategies and cut-offs 0..n+1; single games and strategy tests on placements (also non-effective, wrong chip count, unknown opponent vertex); per-sink Dhar strategy tests and minimal-strategy search for every sink",
-                "theorems": ["playGame_exact", "strategyWorks_exact", "winnable_mono", "all_ones_wins", "computeGonality_exact", "gonality_unique", "dharTestStrategy_exact"]}
+                "theorems": ["playGame_exact", "strategyWorks_exact", "winnable_mono", "all_ones_wins", "computeGonality_exact", "gonality_unique", "dharTestStrategy_exact", "per_sink_search_exact", "minimal_strategies_exact"]}
 
 
 # ---- C07
@@ -873,6 +892,6 @@ NONTRIVIAL_RULE["C19"] = "non-trivial: bounds reports on n>=3 vertices; closed f
 PROPS["C19"] = {"generate": c19_generate, "judge": c19_judge, "group_judge": c19_group_judge,
                 "strata": lambda rec: [f"op={rec['scn']['op']}", f"n={rec['scn'].get('n')}", f"kind={rec['scn'].get('_kind', rec['scn'].get('name'))}"],
                 "nontrivial": lambda rec: (rec["scn"]["op"] == "bounds" and rec["scn"]["n"] >= 3) or rec["scn"]["op"] == "gonality" or (rec["scn"]["op"] == "closed" and (rec["scn"]["arg"] if isinstance(rec["scn"]["arg"], int) else sum(rec["scn"]["arg"])) >= 2),
-                "lean_targets": ["ChipFiring.Properties.C19"], "lean_targets_thorough": ["ChipFiring.Properties.C19Heavy"],
+                "lean_targets": ["ChipFiring.Properties.C19"], "lean_targets_thorough": ["ChipFiring.Properties.C19Heavy"], "leanchecker_modules": ["ChipFiring.Properties.C19"],
                 "rule": "bounds report and independence number on every connected simple graph with n<=4 (quick) / 5 (thorough) labelled vertices plus generated families up to n=5/6, each compared with the model's report and bracketed against the true gonality found by the verified search; closed forms for n in -1..8 and every part vector with sum <= 6/7, the multipartite and K_n forms compared with the true gonality of the generated graph; the exact table entries of the regenerated tetrahedron, octahedron and cube compared with the library's own gonality() and with the verified search",
-                "theorems": ["complete_graph_closed_form", "multipartite_closed_form", "parking_count_closed_form", "solid_counts", "certified_is_gonality", "tetrahedron_exact", "octahedron_exact", "complete_graph_gonality_small", "multipartite_formula_wrong", "independence_is_max"]}
+                "theorems": ["complete_graph_closed_form", "multipartite_closed_form", "parking_count_closed_form", "solid_counts", "certified_is_gonality", "complete_graph_gonality_all", "complete_graph_gonality_any", "completeEdges_isComplete", "tetrahedron_exact", "octahedron_exact", "complete_graph_gonality_small", "multipartite_formula_wrong", "independence_is_max"]}
